@@ -323,6 +323,51 @@ func rewriteFile(p *packages.Package, f *ast.File, name, dir string, rep *report
 		return true
 	}, nil)
 
+	// 1d. (*os.File).Close -> verifrt.FileClose (a close that reports lost delayed writes can be injected);
+	//     zip.NewWriter(w) -> zip.NewWriter(verifrt.Writer(w)) (every Write of the package writer is a fault point)
+	astutil.Apply(f, func(c *astutil.Cursor) bool {
+		call, ok := c.Node().(*ast.CallExpr)
+		if !ok {
+			return true
+		}
+		sel, ok := call.Fun.(*ast.SelectorExpr)
+		if !ok {
+			return true
+		}
+		if sel.Sel.Name == "Close" && len(call.Args) == 0 {
+			t := p.TypesInfo.TypeOf(sel.X)
+			if t != nil && t.String() == "*os.File" {
+				pos := p.Fset.Position(sel.Pos())
+				rep.IOSites = append(rep.IOSites, fmt.Sprintf("%s:%d os.File.Close", rel, pos.Line))
+				c.Replace(&ast.CallExpr{Fun: &ast.SelectorExpr{X: ast.NewIdent("verifrt"), Sel: ast.NewIdent("FileClose")}, Args: []ast.Expr{sel.X}})
+				changed, usesRT = true, true
+			}
+			return true
+		}
+		if sel.Sel.Name == "NewWriter" && len(call.Args) == 1 {
+			id, ok := sel.X.(*ast.Ident)
+			if !ok {
+				return true
+			}
+			pn, ok := p.TypesInfo.Uses[id].(*types.PkgName)
+			if !ok || pn.Imported().Path() != "archive/zip" {
+				return true
+			}
+			if inner, ok := call.Args[0].(*ast.CallExpr); ok {
+				if is, ok := inner.Fun.(*ast.SelectorExpr); ok && is.Sel.Name == "Writer" {
+					if x, ok := is.X.(*ast.Ident); ok && x.Name == "verifrt" {
+						return true // already wrapped
+					}
+				}
+			}
+			pos := p.Fset.Position(sel.Pos())
+			rep.IOSites = append(rep.IOSites, fmt.Sprintf("%s:%d zip.NewWriter", rel, pos.Line))
+			call.Args[0] = &ast.CallExpr{Fun: &ast.SelectorExpr{X: ast.NewIdent("verifrt"), Sel: ast.NewIdent("Writer")}, Args: []ast.Expr{call.Args[0]}}
+			changed, usesRT = true, true
+		}
+		return true
+	}, nil)
+
 	// 2. range over map
 	labeled := map[ast.Stmt]bool{}
 	ast.Inspect(f, func(n ast.Node) bool {
